@@ -101,7 +101,7 @@ class FaultEnumeration(Leg):
             "is run once counting the invocations n_c of each callback c, then again with a fault at the k-th invocation for EVERY "
             "k <= n_c (complete per case); after each run vars() of every object and the structural snapshot must equal the ones "
             "before, neighbors() of every vertex must answer as the uncached recomputation did before the call (each entry point "
-            "meets a fresh copy of the graph, so cold memos are exercised), and the call repeated with well-behaved callbacks must "
+            "meets a fresh copy of the graph; with caching on its memos are cold in half of the cases and warm in the others), and the call repeated with well-behaved callbacks must "
             "give the normal answer; non-trivial = >= 3 fault points")
     quick_n = 40
     thorough_n = 600
@@ -116,7 +116,7 @@ class FaultEnumeration(Leg):
             if not members:
                 ops[-1] = ["NU", [vids[0]], None]
                 members = [vids[0]]
-            yield {"ops": ops, "u": u, "start": rng.choice(members), "caching": rng.random() < 0.5}
+            yield {"ops": ops, "u": u, "start": rng.choice(members), "caching": rng.random() < 0.5, "warm": rng.random() < 0.5}
 
     def _build(self, case):
         w = H.World()
@@ -126,6 +126,8 @@ class FaultEnumeration(Leg):
             if H.kind_of(o) in H.VERTEX_KINDS and i % 2:
                 o.tag = i
         Vertex.NEIGHBOR_CACHING = case["caching"]
+        if case["caching"] and case.get("warm"):
+            Q.warm_memo(w)             # half of the caching-on cases meet warm memos, the others cold ones
         return w
 
     @staticmethod
